@@ -345,6 +345,16 @@ def case_split_array(c):
         data = data + 1j * (data[::-1, ::-1] + 0.5)
     elif c.get('dtype') == 'float32':
         data = (data + 0.25).astype(np.float32)
+    elif c.get('dtype') == 'fortran':
+        data = np.asfortranarray(data)                       # column-major storage of the same values
+    elif c.get('dtype') == 'transposed':
+        data = np.ascontiguousarray(data.T).T                # e.g. a (freq, time) array viewed as (time, freq)
+    elif c.get('dtype') == 'strided':
+        big = np.zeros((2 * H + 1, 3 * W + 2)) - 7.0
+        big[1::2, 2::3] = data
+        data = big[1::2, 2::3]                               # a strided window into a larger array
+    elif c.get('dtype') == 'reversed':
+        data = np.ascontiguousarray(data[::-1, ::-1])[::-1, ::-1]
     nontriv, outcomes = [], set()
     nrun = 0
     cnt = {'partition_checks': 0, 'ragged_results': 0, 'invalid_shift_runs': 0}
@@ -432,7 +442,7 @@ def run(ctx):
     arr = [dict(H=H, W=W, seed=ctx.seed) for H in range(1, 7) for W in range(1, 7)]
     arr += [dict(H=H, W=W, seed=ctx.seed, dtype=dt) for (H, W) in (((3, 4), (4, 3), (2, 5)) if not thorough else
                                                                  [(H, W) for H in range(1, 6) for W in range(1, 6)])
-            for dt in ('int64big', 'complex', 'float32')]
+            for dt in ('int64big', 'complex', 'float32', 'fortran', 'transposed', 'strided', 'reversed')]
     arr.sort(key=lambda c: c['H'] * c['W'])
     ctx.pmap(case_split_array, arr, chunk=1)
     cases = []
